@@ -142,6 +142,15 @@ fn main() {
         "replay" => {
             let path = args.get(2).expect("replay file");
             let generic: serde_json::Value = serde_json::from_str(&std::fs::read_to_string(path).unwrap()).unwrap();
+            // the case was found by a worker pinned to one core: salsa then uses a single shard per
+            // ingredient, which decides whether interned slots are reclaimed. Re-create that.
+            if generic.get("ncpu").and_then(|n| n.as_u64()) == Some(1) && vh::drive::ncpu() > 1 && std::env::var_os("VH_REPINNED").is_none() {
+                let st = std::process::Command::new("taskset").arg("-c").arg("0").arg(std::env::current_exe().unwrap()).args(&args[1..]).env("VH_REPINNED", "1").status();
+                match st {
+                    Ok(st) => exit(st.code().unwrap_or(2)),
+                    Err(e) => eprintln!("taskset unavailable ({e}); replaying unpinned"),
+                }
+            }
             if generic.get("engine").and_then(|e| e.as_str()) == Some("enc") {
                 match vh::enc::replay(path) {
                     Ok(v) => {
